@@ -277,7 +277,7 @@ def collect(pid, result, frs, tier):
     if result.get('infra'):
         raise vlib.Infra('driver reported infrastructure problems: ' + '; '.join(result['infra'][:5]))
     refuted = result.get('dev_cases_where_code_meets_definition') or []
-    unexplained = [m for m in result.get('mismatches') or [] if m['signature'].startswith('unattributed:')]
+    unexplained = [m for m in result.get('mismatches') or [] if m['signature'].startswith('unattributed')]
     if refuted and not unexplained:
         # (with unexplained mismatches the code misbehaves in ways the mechanism model does not know; coincidences are expected)
         raise vlib.Infra('%d cases on which LogQLPlan (mechanism) differs from LogQLSem (definition) but the real code meets the '
